@@ -2,7 +2,7 @@ import HailVerif.Model.TxRetry
 /-! Helper lemmas for `Props/C27.lean`. -/
 namespace HailVerif.TxRetry
 
-variable {σ W : Type} (step : σ → W → Except Err σ)
+variable {σ W : Type} (step : σ → W → Except Err σ) (handler : W → Err → Err)
 
 /-- `PrometheusSQLTimer.__aexit__` returns a falsy value (`Generated.SqlTimer.aexitTruthy = false`, re-read from
 `gear/gear/metrics.py` on every run), so the timer around an instrumented statement never changes its outcome: an
@@ -12,7 +12,7 @@ theorem timed_eq (named : Bool) (cur : σ) (r : Except Err σ) : timed named cur
 
 /-- an attempt whose injected fault did not fire ran exactly the statements of the body -/
 theorem exec_ok_imp_faultfree (ws : List (Bool × W)) : ∀ (cur : σ) (f : Option (Nat × Err)) (s : σ),
-    exec step cur ws f = .ok s → exec step cur ws none = .ok s := by
+    exec step handler cur ws f = .ok s → exec step handler cur ws none = .ok s := by
   induction ws with
   | nil =>
     intro cur f s h
@@ -42,35 +42,35 @@ theorem exec_ok_imp_faultfree (ws : List (Bool × W)) : ∀ (cur : σ) (f : Opti
 
 /-- a committed attempt leaves exactly the state produced by the body's statements -/
 theorem attempt_ok (db db' : σ) (body : List (Bool × W)) (f : Option (Nat × Err))
-    (h : attempt step db body f = (db', none)) : exec step db body none = .ok db' := by
+    (h : attempt step handler db body f = (db', none)) : exec step handler db body none = .ok db' := by
   unfold attempt at h
   simp only [Conn.begin] at h
   split at h
-  · cases hx : exec step db body none with
+  · cases hx : exec step handler db body none with
     | error e => simp [hx, Conn.rollback] at h
     | ok cur => simp [hx, Conn.commit] at h
-  · cases hx : exec step db body f with
+  · cases hx : exec step handler db body f with
     | error e => simp [hx, Conn.rollback] at h
     | ok cur =>
       simp [hx, Conn.commit] at h
       subst h
-      exact exec_ok_imp_faultfree step body db f cur hx
+      exact exec_ok_imp_faultfree step handler body db f cur hx
 
 /-- a failed attempt leaves the database as it found it — or, when the calling task was cancelled while the COMMIT was in flight,
 with the whole body applied (the shielded commit completes) -/
 theorem attempt_err (db db' : σ) (body : List (Bool × W)) (f : Option (Nat × Err)) (e : Err)
-    (h : attempt step db body f = (db', some e)) : db' = db ∨ (e = cancelled ∧ exec step db body none = .ok db') := by
+    (h : attempt step handler db body f = (db', some e)) : db' = db ∨ (e = cancelled ∧ exec step handler db body none = .ok db') := by
   unfold attempt at h
   simp only [Conn.begin] at h
   split at h
-  · cases hx : exec step db body none with
+  · cases hx : exec step handler db body none with
     | error e' =>
       simp [hx, Conn.rollback] at h
       exact Or.inl h.1.symm
     | ok cur =>
       simp [hx, Conn.commit] at h
       exact Or.inr ⟨h.2.symm, by rw [h.1]⟩
-  · cases hx : exec step db body f with
+  · cases hx : exec step handler db body f with
     | error e' =>
       simp [hx, Conn.rollback] at h
       exact Or.inl h.1.symm
@@ -81,51 +81,51 @@ theorem retryable_ne_cancelled (e : Err) (hr : retryable e = true) : e ≠ cance
 
 /-- an attempt that failed with a retryable error left the database as it found it -/
 theorem attempt_err_retryable (db db' : σ) (body : List (Bool × W)) (f : Option (Nat × Err)) (e : Err)
-    (h : attempt step db body f = (db', some e)) (hr : retryable e = true) : db' = db := by
-  rcases attempt_err step db db' body f e h with h1 | ⟨h1, _⟩
+    (h : attempt step handler db body f = (db', some e)) (hr : retryable e = true) : db' = db := by
+  rcases attempt_err step handler db db' body f e h with h1 | ⟨h1, _⟩
   · exact h1
   · exact absurd h1 (retryable_ne_cancelled e hr)
 
 theorem runFrom_spec (db : σ) (body : List (Bool × W)) (scripts : List (Option (Nat × Err))) : ∀ n,
-    ((runFrom step n db body scripts).error = none → exec step db body none = .ok (runFrom step n db body scripts).db) ∧
-    (∀ e, (runFrom step n db body scripts).error = some e → (runFrom step n db body scripts).db = db ∨
-      (e = cancelled ∧ exec step db body none = .ok (runFrom step n db body scripts).db)) := by
+    ((runFrom step handler n db body scripts).error = none → exec step handler db body none = .ok (runFrom step handler n db body scripts).db) ∧
+    (∀ e, (runFrom step handler n db body scripts).error = some e → (runFrom step handler n db body scripts).db = db ∨
+      (e = cancelled ∧ exec step handler db body none = .ok (runFrom step handler n db body scripts).db)) := by
   induction scripts with
   | nil =>
     intro n
     simp only [runFrom]
-    rcases ha : attempt step db body none with ⟨db', err⟩
+    rcases ha : attempt step handler db body none with ⟨db', err⟩
     cases err with
-    | none => exact ⟨fun _ => attempt_ok step db db' body none ha, fun e h => by simp at h⟩
+    | none => exact ⟨fun _ => attempt_ok step handler db db' body none ha, fun e h => by simp at h⟩
     | some e =>
       refine ⟨fun h => by simp at h, fun e' he' => ?_⟩
       simp at he'; subst he'
-      exact attempt_err step db db' body none e ha
+      exact attempt_err step handler db db' body none e ha
   | cons f fs ih =>
     intro n
     simp only [runFrom]
-    rcases ha : attempt step db body f with ⟨db', err⟩
+    rcases ha : attempt step handler db body f with ⟨db', err⟩
     cases err with
-    | none => exact ⟨fun _ => attempt_ok step db db' body f ha, fun e h => by simp at h⟩
+    | none => exact ⟨fun _ => attempt_ok step handler db db' body f ha, fun e h => by simp at h⟩
     | some e =>
       by_cases hr : retryable e = true
-      · have hdb : db' = db := attempt_err_retryable step db db' body f e ha hr
+      · have hdb : db' = db := attempt_err_retryable step handler db db' body f e ha hr
         subst hdb
         simp only [hr, if_true]
         exact ih (n + 1)
       · simp only [hr]
         refine ⟨fun h => by simp at h, fun e' he' => ?_⟩
         simp at he'; subst he'
-        exact attempt_err step db db' body f e ha
+        exact attempt_err step handler db db' body f e ha
 
 theorem attempts_runFrom_ge (db : σ) (body : List (Bool × W)) (scripts : List (Option (Nat × Err))) : ∀ n,
-    n + 1 ≤ (runFrom step n db body scripts).attempts := by
+    n + 1 ≤ (runFrom step handler n db body scripts).attempts := by
   induction scripts generalizing db with
-  | nil => intro n; simp only [runFrom]; rcases attempt step db body none with ⟨_, _⟩; simp
+  | nil => intro n; simp only [runFrom]; rcases attempt step handler db body none with ⟨_, _⟩; simp
   | cons f fs ih =>
     intro n
     simp only [runFrom]
-    rcases attempt step db body f with ⟨db', err⟩
+    rcases attempt step handler db body f with ⟨db', err⟩
     cases err with
     | none => simp
     | some e =>
